@@ -124,6 +124,49 @@ Proof.
   unfold fseg_of_seq in *. cbn [fp_of_vsock f_segs f_snd_una] in *. rewrite E. exact Hg.
 Qed.
 
+(* ---- TS from a relation between the two tables in the style of DM (Conn/C06_StepLemmas2.v): d entries
+   dropped from the front, what stays keeps size and probe flag unless it was a probe *)
+Definition SMl (d : nat) (l0 l : list seg) : Prop :=
+  forall i g g', nth_error l0 (d + i) = Some g -> nth_error l i = Some g' ->
+    sg_probe g = true \/ (sg_size g' = sg_size g /\ sg_probe g' = false).
+Definition SM (t0 t : segments) : Prop :=
+  exists d, (d <= length (ss_segs t0))%nat /\
+    ss_snd_una t = wadd16 (ss_snd_una t0) (Z.of_nat d mod M16) /\ SMl d (ss_segs t0) (ss_segs t).
+
+Lemma seq_sub_cong : forall a b, (seq_sub a b - (a - b)) mod M16 = 0.
+Proof.
+  intros a b. unfold seq_sub, seq_nr_offset, WRAP_TOLERANCE, wsub16, M16.
+  destruct (a <? b); [destruct (_ <=? _); lia|].
+  destruct (Z.eqb_spec a b); [lia|]. destruct (_ <=? _); lia.
+Qed.
+
+Lemma SM_TS : forall (s s' : vsock),
+  SM (v_segs s) (v_segs s') ->
+  tol_ok (fp_of_vsock cci s) = true -> tol_ok (fp_of_vsock cci s') = true ->
+  TS (fp_of_vsock cci s) (fp_of_vsock cci s').
+Proof.
+  intros s s' (d & Hd & Hu & Hl) Ht Ht' q g g'. unfold tol_ok, fseg_of_seq in *.
+  cbn [fp_of_vsock f_segs f_snd_una] in *. rewrite ?map_length in *.
+  apply Z.leb_le in Ht. apply Z.leb_le in Ht'.
+  pose proof (seq_sub_cong q (ss_snd_una (v_segs s))) as C1.
+  pose proof (seq_sub_cong q (ss_snd_una (v_segs s'))) as C2.
+  set (k := seq_sub q (ss_snd_una (v_segs s))) in *.
+  set (k' := seq_sub q (ss_snd_una (v_segs s'))) in *.
+  intros E1 E2.
+  destruct ((0 <=? k) && (k <? Z.of_nat (length (ss_segs (v_segs s))))) eqn:R1; [|discriminate].
+  destruct ((0 <=? k') && (k' <? Z.of_nat (length (ss_segs (v_segs s'))))) eqn:R2; [|discriminate].
+  apply andb_true_iff in R1. destruct R1 as [R1a R1b]. apply Z.leb_le in R1a. apply Z.ltb_lt in R1b.
+  apply andb_true_iff in R2. destruct R2 as [R2a R2b]. apply Z.leb_le in R2a. apply Z.ltb_lt in R2b.
+  assert (Hk : k = Z.of_nat d + k').
+  { rewrite Hu in C2. unfold wadd16, M16 in *. lia. }
+  rewrite nth_error_map in E1, E2.
+  destruct (nth_error (ss_segs (v_segs s)) (Z.to_nat k)) as [x|] eqn:N1; [|discriminate].
+  destruct (nth_error (ss_segs (v_segs s')) (Z.to_nat k')) as [x'|] eqn:N2; [|discriminate].
+  cbn [option_map] in E1, E2. injection E1 as <-. injection E2 as <-.
+  replace (Z.to_nat k) with (d + Z.to_nat k')%nat in N1 by lia.
+  unfold fseg_of. cbn [fg_probe fg_size]. exact (Hl _ _ _ N1 N2).
+Qed.
+
 (* the step of the tables over one poll that the transport cannot answer with EMSGSIZE *)
 Definition TSH : Prop :=
   forall (s s' : vsock) r, LB 0 s -> EF s -> poll cci s = (s', r) ->
@@ -184,4 +227,73 @@ Proof.
   apply Hrest. apply (MW_filter_MInv m1 (fp_of_vsock cci s') K2).
 Qed.
 
+(* PARTIAL: every trace from vsock_new satisfies the guarded predicate, GIVEN the table step TSH.
+   What is missing is TSH itself: over one EMSGSIZE-free poll from an LB state, a sequence number named by the
+   table before and after names a segment of the same size that is not a probe, unless it named a probe before.
+   It is the size/probe analogue of DM (Conn/C06_StepLemmas2.v poll_OUT_DM_strict_all: d entries dropped from the
+   front, delivered ones stay delivered) and has the same proof skeleton (poll_H with pim_rule / send_tx_queue_rule);
+   the leaves it needs and that do not exist yet: sack_phase, recovery_on_ack, calc_pipe/pipe_loop and on_sent keep
+   sg_size and sg_probe pointwise (Forall2), strip_delivered drops a prefix, pop_expired_mtu_probe removes only a
+   last entry with sg_probe = true, enqueue/segment_loop append; then the index shift d + k between the two tables
+   has to be carried through seq_sub (both tables within the tolerance: d + k <= 2048). *)
+Theorem c06_stable_plen_ok_g_partial : TSH ->
+  forall cfg mk c (s0 : vsock) ops,
+    vconfig_ok c = true -> vsock_new cci mk c = Some s0 ->
+    c06_stable_plen_ok_g cfg (ftrace cci s0 ops) = true.
+Proof.
+  intros HT cfg mk c s0 ops Hc H0. unfold c06_stable_plen_ok_g.
+  assert (Hl : v_emsg_limit s0 = None).
+  { unfold vsock_new in H0.
+    destruct (match (if vc_incoming c then None else _) with Some r => _ | None => _ end); [|discriminate].
+    inversion H0; subst. reflexivity. }
+  rewrite <- Hl. apply (stable_trace_g_partial HT).
+  - eapply vsock_new_LB; eassumption.
+  - intros q pl pr Ha. discriminate.
+Qed.
+
+(* the same, with the missing piece stated on the tables (the form a poll_H proof would produce; SM_TS carries it
+   through seq_sub).  To prove SMH along the skeleton of poll_OUT_DM_strict_all the running relation has to be
+   SM strengthened by "every entry of the first table at an index >= d + length of the current table is a probe"
+   (those are the popped ones: pop_expired_mtu_probe pops only a last entry with sg_probe = true, and the segment
+   enqueued afterwards at that index may have another size). *)
+Definition SMH : Prop :=
+  forall (s s' : vsock) r, LB 0 s -> EF s -> poll cci s = (s', r) -> SM (v_segs s) (v_segs s').
+
+Lemma SMH_TSH : SMH -> TSH.
+Proof. intros H s s' r HL HE E Ht Ht'. apply SM_TS; [eapply H; eauto | exact Ht | exact Ht']. Qed.
+
+Theorem c06_stable_plen_ok_g_partial_SM : SMH ->
+  forall cfg mk c (s0 : vsock) ops,
+    vconfig_ok c = true -> vsock_new cci mk c = Some s0 ->
+    c06_stable_plen_ok_g cfg (ftrace cci s0 ops) = true.
+Proof. intro H. apply c06_stable_plen_ok_g_partial. apply SMH_TSH. exact H. Qed.
+
 End WithCC.
+
+Print Assumptions c06_stable_plen_ok_g_partial.
+Print Assumptions c06_stable_plen_ok_g_partial_SM.
+Print Assumptions SM_TS.
+
+(* ------------------------------------------------------------------ non-vacuity: the scenario of
+   backoff_cap_nonvacuous (Conn/C06_Step.v: one segment, retransmitted by five expiries of the timer): every poll
+   meets the guard of stable_step_g, the same sequence number goes out several times (so the map is consulted),
+   and both the guarded and the original predicate hold *)
+Definition data_seqs (tr : list fstep) : list Z :=
+  flat_map (fun st => match fs_result st with
+                      | FrPoll _ pkts _ _ => map (fun p => ch_seq (fq_hdr p)) (filter fq_is_data pkts)
+                      | _ => []
+                      end) tr.
+
+Lemma stable_plen_g_nonvacuous :
+  exists w cfg ops,
+    vconfig_ok cfg = true /\ Forall op_msg_ok ops /\
+    forallb (fun st => poll_noemsg None st && tol_ok (fs_pre st) && tol_ok (fs_post st)) (wtrace w cfg ops) = true /\
+    (6 <=? Z.of_nat (length (data_seqs (wtrace w cfg ops)))) = true /\
+    forallb (fun q => q =? 101) (data_seqs (wtrace w cfg ops)) = true /\
+    c06_stable_plen_ok_g cfg (wtrace w cfg ops) = true /\
+    c06_stable_plen_ok cfg (wtrace w cfg ops) = true.
+Proof.
+  exists 1000, nv_cfg, nv_rto_ops.
+  split; [vm_compute; reflexivity|]. split; [repeat constructor|].
+  repeat split; vm_compute; reflexivity.
+Qed.
